@@ -176,7 +176,7 @@ class ParseMCNPCell:
         if kws['u'] is None:
             kws['u'] = 0
         if kws['material'] is not None:
-            material_id = kws['material']
+            material_id = str(int(kws['material']))
         if kws['density'] is not None:
             density = normalize_float(kws['density'])
         fillid = self.to_fillid(kws, lat_opt)
@@ -189,7 +189,9 @@ class ParseMCNPCell:
     @staticmethod
     def parse_material(material):
         '''Parse the material/density pair.'''
-        material_id = material.split()[0]
+        # the material number is an integer field: '00', '+0' and '01' denote
+        # the same materials as '0' and '1' (compositions are named after it)
+        material_id = str(int(material.split()[0]))
         if int(material_id) == 0:
             density = None
         else:
